@@ -87,6 +87,15 @@ type nativeResult struct {
 }
 
 // buildNative compiles the native replay binary for harness package pkg.
+// nativeBuilt: the replay binaries this process compiled (removed when it ends)
+var nativeBuilt []string
+
+func removeNative() {
+	for _, b := range nativeBuilt {
+		os.Remove(b)
+	}
+}
+
 func buildNative(verifDir, pkg string, race bool) (string, error) {
 	ov, _, err := overlayFiles(verifDir)
 	if err != nil {
@@ -167,10 +176,13 @@ func buildNative(verifDir, pkg string, race bool) (string, error) {
 	oj, _ := json.Marshal(map[string]interface{}{"Replace": repl})
 	ovPath := filepath.Join(tmp, "overlay.json")
 	os.WriteFile(ovPath, oj, 0o644)
-	bin := filepath.Join(verifDir, "bin", "native_"+pkg+".test")
+	// one binary per process: checks of several properties may run at the same time
+	bin := filepath.Join(verifDir, "bin", fmt.Sprintf("native_%s_%d.test", pkg, os.Getpid()))
+	nativeBuilt = append(nativeBuilt, bin)
 	args := []string{"test", "-c", "-tags", "verif", "-vet=off", "-overlay", ovPath}
 	if race {
-		bin = filepath.Join(verifDir, "bin", "native_"+pkg+"_race.test")
+		bin = filepath.Join(verifDir, "bin", fmt.Sprintf("native_%s_race_%d.test", pkg, os.Getpid()))
+		nativeBuilt = append(nativeBuilt, bin)
 		args = append(args, "-race")
 	}
 	args = append(args, "-o", bin, "./internal/zz"+pkg+"/")
@@ -301,7 +313,9 @@ func cmdCheck(args []string) {
 	fmt.Sscanf(os.Getenv("VERIF_SEED"), "%d", &seed)
 
 	if *replay != "" {
-		os.Exit(doReplay(*verifDir, prop, *replay))
+		rc := doReplay(*verifDir, prop, *replay)
+		removeNative()
+		os.Exit(rc)
 	}
 	specs, ok := checks[prop]
 	if !ok {
@@ -647,6 +661,7 @@ func cmdCheck(args []string) {
 	for _, s := range inconclusive {
 		fmt.Fprintf(os.Stderr, "INCONCLUSIVE %s\n", firstLines(s, 8))
 	}
+	removeNative()
 	if violations > 0 {
 		os.Exit(1)
 	}
